@@ -11,24 +11,19 @@
 		g_free_calls = nondet_size_t(); g_alloc_ok = nondet_size_t();                 \
 		__CPROVER_assume(g_free_calls < ((size_t) 1 << 40) && g_alloc_ok < ((size_t) 1 << 40)); \
 		g_now = nondet_u64(); __CPROVER_assume(g_now < ((uint64_t) 1 << 40));         \
-		g_clk_base = g_now; g_lock_ops = 0;                                           \
+		g_clk_base = g_now; g_lock_ops = 0; g_alloc_calls = 0;                                         \
 		g_held[0] = false; g_held[1] = false; g_held[2] = false; g_held[3] = false;   \
 		g_mx0 = VP_NEW(nni_mtx); g_mx1 = VP_NEW(nni_mtx);                             \
 	} while (0)
 
-/* a string of n <= ST_SCAP arbitrary non-NUL bytes in a block of exactly n+1 bytes */
+/* a string of at most ST_SCAP arbitrary bytes + terminator, in a block of
+ * CONSTANT size ST_SCAP+1 (read-only uses: names, descriptions, values that
+ * the function under contract never releases) */
 static char *
 vp_mk_str(void)
 {
-	size_t n = nondet_size_t();
-	__CPROVER_assume(n <= ST_SCAP);
-	char *s = (char *) __CPROVER_allocate(n + 1, 0);
-	for (size_t i = 0; i < ST_SCAP; i++) {
-		if (i < n) {
-			__CPROVER_assume(s[i] != 0);
-		}
-	}
-	s[n] = 0;
+	char *s    = (char *) __CPROVER_allocate(ST_SCAP + 1, 0);
+	s[ST_SCAP] = 0;
 	return (s);
 }
 
@@ -92,14 +87,61 @@ vp_mk_items(nni_stat_item *root, size_t nc, size_t ng)
 #define ST_NG nondet_size_t()
 #endif
 
-void h_snapshot(void) { nni_stat **sp; VP_HAVOC_GHOSTS(); vp_mk_items(NULL, ST_NC, ST_NG); nni_stat_snapshot(sp, g_it0); VP_CANARY(); }
-/* the public entry: the root is the file's static stats_root */
-void
-h_stats_get(void)
+/* Tree check after a successful snapshot: one node per registered item, same
+ * shape and order, values copied, sampled under the locks.  Nodes are bound to
+ * locals one link at a time (the same predicates written as one nested
+ * postcondition expression did not get through symbolic execution). */
+static void
+vp_check_tree(nni_stat *r)
 {
-	nni_stat **sp;
-	VP_HAVOC_GHOSTS();
-	vp_mk_items(&stats_root, ST_NC, ST_NG);
-	nng_stats_get(sp);
-	VP_CANARY();
+	nni_stat *c0 = SN_FIRST(r);
+	if (g_nc == 0) {
+		__CPROVER_assert(SN_EMPTY(r), "snapshot: root without children");
+		return;
+	}
+	__CPROVER_assert(SN_IS(c0, g_it1, r), "snapshot: first child is the snapshot of the first registered child");
+	if (g_nc == 1) {
+		__CPROVER_assert(SN_ONE(r, c0), "snapshot: exactly one child");
+	} else {
+		nni_stat *c1 = SN_NEXT(c0);
+		__CPROVER_assert(SN_TWO(r, c0, c1), "snapshot: exactly two children, registration order");
+		__CPROVER_assert(SN_IS(c1, g_it2, r), "snapshot: second child is the snapshot of the second registered child");
+		__CPROVER_assert(SN_EMPTY(c1), "snapshot: second child is a leaf");
+	}
+	if (g_ng == 0) {
+		__CPROVER_assert(SN_EMPTY(c0), "snapshot: first child is a leaf");
+	} else {
+		nni_stat *g = SN_FIRST(c0);
+		__CPROVER_assert(SN_ONE(c0, g), "snapshot: first child has exactly one child");
+		__CPROVER_assert(SN_IS(g, g_it3, c0), "snapshot: grandchild is the snapshot of the registered grandchild");
+		__CPROVER_assert(SN_EMPTY(g), "snapshot: grandchild is a leaf");
+	}
 }
+
+/* One call per value of "which allocation request is refused": constants for
+ * the node allocations (they come first: 0 .. nodes-1), symbolic beyond
+ * (string copies, or no failure at all). */
+#define ST_SPLIT_FAIL(call)                                              \
+	do {                                                             \
+		size_t f = nondet_size_t();                              \
+		if (f == 0) {                                            \
+			g_fail_at = 0;                                   \
+			if (call == 0) { vp_check_tree(*sp); }           \
+		} else if (f == 1) {                                     \
+			g_fail_at = 1;                                   \
+			if (call == 0) { vp_check_tree(*sp); }           \
+		} else if (f == 2) {                                     \
+			g_fail_at = 2;                                   \
+			if (call == 0) { vp_check_tree(*sp); }           \
+		} else if (f == 3) {                                     \
+			g_fail_at = 3;                                   \
+			if (call == 0) { vp_check_tree(*sp); }           \
+		} else {                                                 \
+			g_fail_at = f;                                   \
+			if (call == 0) { vp_check_tree(*sp); }           \
+		}                                                        \
+	} while (0)
+
+void h_snapshot(void) { nni_stat **sp; VP_HAVOC_GHOSTS(); vp_mk_items(NULL, ST_NC, ST_NG); ST_SPLIT_FAIL(nni_stat_snapshot(sp, g_it0)); VP_CANARY(); }
+/* the public entry: the root is the file's static stats_root */
+void h_stats_get(void) { nni_stat **sp; VP_HAVOC_GHOSTS(); vp_mk_items(&stats_root, ST_NC, ST_NG); ST_SPLIT_FAIL(nng_stats_get(sp)); VP_CANARY(); }
